@@ -443,8 +443,11 @@ def run_shard(prop, run, exe, tier, seed, cases, start, shard, nshards, outdir, 
                 res.harness_failure = "%s died before the first case (rc=%s): %s" % (run["name"], rc, stderr[-800:])
             break
         resumes += 1
-        if resumes > MAX_RESUMES:
-            res.harness_failure = "%s: more than %d crashes in one shard" % (run["name"], MAX_RESUMES)
+        # quick tier: a dozen crashes in one shard are evidence enough (each is already a violation key); going on
+        # only costs time on a tree that is broken anyway.  The unchanged tree has no crash at all.
+        limit = MAX_RESUMES if tier == "thorough" else 12
+        if resumes > limit:
+            res.harness_failure = "%s: more than %d crashes in one shard" % (run["name"], limit)
             break
         # resume after the crashed case; cases before the last checkpoint are already merged
         nxt = result.get("next_case", cur_start) if result else cur_start
